@@ -274,6 +274,30 @@ theorem overlaps_mono {a a' b : BBox ℝ} (h : Sub a a') (ho : a.overlaps b = tr
   exact ⟨⟨⟨by linarith, by linarith⟩, by linarith, by linarith⟩, by linarith, by linarith⟩
 
 
+/-! ## boxes of point clouds -/
+
+/-- the box of a point cloud (fold of `from_union_point`) contains every point, in whatever order they come … -/
+theorem foldl_unionPoint_contains (ps : List (V3 ℝ)) (acc : BBox ℝ) :
+    Sub acc (ps.foldl BBox.fromUnionPoint acc) ∧ ∀ p ∈ ps, Contains (ps.foldl BBox.fromUnionPoint acc) p := by
+  have e : ps.foldl BBox.fromUnionPoint acc = (ps.map BBox.fromPoint).foldl BBox.fromUnion acc := by
+    rw [List.foldl_map]; rfl
+  rw [e]
+  obtain ⟨h1, h2⟩ := foldl_union_contains (ps.map BBox.fromPoint) acc
+  refine ⟨h1, fun p hp => ?_⟩
+  exact (fromPoint_sub_iff p _).1 (h2 _ (List.mem_map.2 ⟨p, hp, rfl⟩))
+
+/-- … and is the least box doing so -/
+theorem foldl_unionPoint_least (ps : List (V3 ℝ)) (acc c : BBox ℝ) (hacc : Sub acc c) (h : ∀ p ∈ ps, Contains c p) :
+    Sub (ps.foldl BBox.fromUnionPoint acc) c := by
+  have e : ps.foldl BBox.fromUnionPoint acc = (ps.map BBox.fromPoint).foldl BBox.fromUnion acc := by
+    rw [List.foldl_map]; rfl
+  rw [e]
+  apply foldl_union_least _ _ _ hacc
+  intro b hb
+  obtain ⟨p, hp, rfl⟩ := List.mem_map.1 hb
+  exact (fromPoint_sub_iff p c).2 (h p hp)
+
+
 /-- non-vacuity: a concrete pair of boxes, their union and a third box above both -/
 example : Sub (BBox.fromUnion ⟨⟨0, 0, 0⟩, ⟨1, 1, 1⟩⟩ ⟨⟨2, -1, 0⟩, ⟨3, 0, 0⟩⟩ : BBox ℝ) ⟨⟨-1, -1, -1⟩, ⟨3, 1, 1⟩⟩ :=
   union_least (by simp [Sub]) (by simp [Sub]; norm_num)
